@@ -102,7 +102,7 @@ CLAIMED["C15"] = ("model_checking",
   "DESIGN.md §5 C15")
 CLAIMED["C04"] = ("model_checking",
   "bounded-exhaustive enumeration of expressions (every function x every argument tuple over typed atoms; every function pair; every nesting of context constructors up to a depth) on jawk::go, in lock-step with a reference evaluator written from the function documentation and self-checked against all documented examples",
-  "Depth 1: each of the 108 pure functions on every argument tuple within its arity over 44 atoms of all types plus per-function atoms (and 12 bodies for functional arguments), and the atoms arriving as input, member, element, variable, macro, selected name and parent; depth 2: every function with one argument replaced by every function on its documented arguments; depth 3..5: every nesting of <=3 (thorough 4) context constructors (map, filter, flat_map, fold, sort_by, map_values, group_by, pipe, set, define, first-of-map over 6 sources) around 8 leaves reading ., ^, ^^, ^.n, :x, @m. The value of the selection must be the reference value, or absent when the reference says nothing.",
+  "Depth 1: each of the 108 pure functions on every argument tuple within its arity over 45 atoms of all types plus per-function atoms (and 12 bodies for functional arguments), and the atoms arriving as input, member, element, variable, macro, selected name and parent; depth 2: every function with one argument replaced by every function on its documented arguments; depth 3..5: every nesting of <=3 (thorough 4) context constructors (map, filter, flat_map, fold, sort_by, map_values, group_by, pipe, set, define, first-of-map over 6 sources) around 8 leaves reading ., ^, ^^, ^.n, :x, @m. The value of the selection must be the reference value, or absent when the reference says nothing.",
   "Left open by the documentation and therefore executed but not compared: and/or with both a deciding and a non-boolean argument, order of unequal objects, inexact number-as-string operations, range 0, split by the empty string, parse of texts that are not one RFC 8259 value, integers beyond 2^53 in arithmetic, ^ beyond the enclosing inputs, /name/ inside functional arguments. Not executed: range/cross beyond 10^4 items and self-calling macros (resource exhaustion, the property's own bound).",
   "DESIGN.md §5 C04")
 NOT_YET = {}
